@@ -139,6 +139,8 @@ func serializeSignedMessage(e *Exchange, certSha256 []byte, validityUrl string, 
 		if certSha256 != nil {
 			buf.WriteByte(32)
 			buf.Write(certSha256)
+		} else {
+			buf.WriteByte(0)
 		}
 
 		// "5. The 8-byte big-endian encoding of the length in bytes of validity-url, followed by the bytes of validity-url." [spec text]
